@@ -6,6 +6,7 @@ package vapi
 import (
 	"encoding/json"
 	"fmt"
+	"hash"
 	"math/big"
 	"os"
 	"strings"
@@ -200,6 +201,22 @@ func UFHash(name string, parts ...[]byte) [32]byte {
 	}
 	return blake2b.Sum256(all)
 }
+
+// symHasher is the engine's replacement for BLAKE2b-256 streaming hashers:
+// it accumulates the preimage and hashes it with HashBytes on Sum, so that the
+// real encoders decide what is hashed while the hash itself stays idealised.
+type symHasher struct{ buf []byte }
+
+func (h *symHasher) Write(p []byte) (int, error) { h.buf = append(h.buf, p...); return len(p), nil }
+func (h *symHasher) Sum(b []byte) []byte         { d := HashBytes(h.buf); return append(b, d[:]...) }
+func (h *symHasher) Reset()                      { h.buf = h.buf[:0] }
+func (h *symHasher) Size() int                   { return 32 }
+func (h *symHasher) BlockSize() int              { return 128 }
+
+// NewHasher replaces go.sia.tech/core/blake2b.New256 under the engine.
+//
+//verif:replace go.sia.tech/core/blake2b.New256
+func NewHasher() hash.Hash { return &symHasher{} }
 
 // HashBytes is the idealised BLAKE2b-256.
 func HashBytes(b []byte) [32]byte { return blake2b.Sum256(b) }
